@@ -31,15 +31,20 @@ pub const EC_SPKI: [&[u8]; 3] = [
     include_bytes!("../../fixtures/keys/ec-2.spki.der"),
     include_bytes!("../../fixtures/keys/ec-3.spki.der"),
 ];
-pub const RSA_PK8: [&[u8]; 3] = [
+pub const RSA_PK8: [&[u8]; 5] = [
     include_bytes!("../../fixtures/keys/rsa-2048.pk8.der"),
     include_bytes!("../../fixtures/keys/rsa-2048-b.pk8.der"),
     include_bytes!("../../fixtures/keys/rsa-4096.pk8.der"),
+    // public exponents 0x800001 and 0x80000001 (top byte >= 0x80: DER needs a leading zero)
+    include_bytes!("../../fixtures/keys/rsa-2048-e8388609.pk8.der"),
+    include_bytes!("../../fixtures/keys/rsa-2048-e2147483649.pk8.der"),
 ];
-pub const RSA_SPKI: [&[u8]; 3] = [
+pub const RSA_SPKI: [&[u8]; 5] = [
     include_bytes!("../../fixtures/keys/rsa-2048.spki.der"),
     include_bytes!("../../fixtures/keys/rsa-2048-b.spki.der"),
     include_bytes!("../../fixtures/keys/rsa-4096.spki.der"),
+    include_bytes!("../../fixtures/keys/rsa-2048-e8388609.spki.der"),
+    include_bytes!("../../fixtures/keys/rsa-2048-e2147483649.spki.der"),
 ];
 pub const ALICE_PUB_PEM: &str = include_str!("../../fixtures/keys/alice.pub");
 
@@ -77,7 +82,7 @@ fn mk(name: &'static str, kind: &'static str, der: &[u8], scheme: SignatureSchem
 
 /// All fixture keys:
 /// ed1..ed6, ec1..ec3, rsa256a (2048), rsa256b (2048-b), rsa512a (2048, sha512),
-/// rsa256c (4096), rsa512c (4096, sha512).
+/// rsa256c (4096), rsa512c (4096, sha512), rsa256e (e = 0x800001), rsa512f (e = 0x80000001).
 pub fn all() -> &'static Vec<Key> {
     static K: OnceLock<Vec<Key>> = OnceLock::new();
     K.get_or_init(|| {
@@ -95,6 +100,8 @@ pub fn all() -> &'static Vec<Key> {
         v.push(mk("rsa512a", "rsa-pss-sha512/2048", RSA_PK8[0], SignatureScheme::RsaSsaPssSha512));
         v.push(mk("rsa256c", "rsa-pss-sha256/4096", RSA_PK8[2], SignatureScheme::RsaSsaPssSha256));
         v.push(mk("rsa512c", "rsa-pss-sha512/4096", RSA_PK8[2], SignatureScheme::RsaSsaPssSha512));
+        v.push(mk("rsa256e", "rsa-pss-sha256/2048", RSA_PK8[3], SignatureScheme::RsaSsaPssSha256));
+        v.push(mk("rsa512f", "rsa-pss-sha512/2048", RSA_PK8[4], SignatureScheme::RsaSsaPssSha512));
         v
     })
 }
